@@ -94,8 +94,11 @@ def gen(chk):
         add(s + ":" + h0)
     # input selection: spending tx whose inputs reference funding txs
     for _ in range(200):
-        fund = T.make_tx(2, [(T.rb(rng, 32), 0, b"", 0xffffffff)], [(rng.randrange(1, 10 ** 8), T.rb(rng, 22)) for _ in range(rng.randrange(1, 4))], 0)
-        ftxid = hashlib.sha256(hashlib.sha256(fund).digest()).digest()
+        fouts = [(rng.randrange(1, 10 ** 8), T.rb(rng, 22)) for _ in range(rng.randrange(1, 4))]
+        fvin = [(T.rb(rng, 32), 0, b"", 0xffffffff)]
+        ftxid = hashlib.sha256(hashlib.sha256(T.make_tx(2, fvin, fouts, 0)).digest()).digest()          # the txid is over the witness-stripped encoding ...
+        # ... also when the funding transaction is given in the extended (witness) serialisation: inputs reference its txid, never its wtxid
+        fund = T.make_tx(2, fvin, fouts, 0, witnesses=([[T.rb(rng, 71), T.rb(rng, 33)]] if rng.random() < 0.5 else None))
         nin = rng.randrange(1, 4)
         pos = rng.randrange(nin)
         vin = []
@@ -106,6 +109,11 @@ def gen(chk):
         for sel in (0, pos, nin - 1, nin, 5):
             add(spend.hex(), fund.hex(), sel)
         add(spend.hex(), T.mutate(rng, fund).hex())
+        # an input that names the funding transaction's wtxid does not reference it
+        wtx = hashlib.sha256(hashlib.sha256(fund).digest()).digest()
+        if wtx != ftxid:
+            sp2 = T.make_tx(2, [(wtx, 0, b"", 0xfffffffe)], [(1000, T.rb(rng, 22))], 0)
+            add(sp2.hex(), fund.hex()); add(sp2.hex(), fund.hex(), 0)
     return {"tx": cases}
 
 def main(tier):
